@@ -84,10 +84,18 @@ func (vals *ValidatorSet) ValidateBasic() error {
 		return errors.New("validator set is nil or empty")
 	}
 
+	// A validator set built by NewValidatorSet or UpdateWithChangeSet never
+	// contains a validator twice, but one decoded from the wire may: every
+	// entry would be counted as a member of its own when commits are verified.
+	seen := make(map[string]int, len(vals.Validators))
 	for idx, val := range vals.Validators {
 		if err := val.ValidateBasic(); err != nil {
 			return fmt.Errorf("invalid validator #%d: %w", idx, err)
 		}
+		if first, ok := seen[string(val.Address)]; ok {
+			return fmt.Errorf("validator %X is listed twice (#%d and #%d)", val.Address, first, idx)
+		}
+		seen[string(val.Address)] = idx
 	}
 
 	if err := vals.Proposer.ValidateBasic(); err != nil {
